@@ -163,6 +163,18 @@ def check(ctx):
             ctx.violation('%s-generated|%s|%s' % (verdict, prof, what), '%s: profile %s, generated program %s (comment shape %s): %s' % (
                 verdict, prof, rel, shape, detail), files={'profile.cfg': profile_text(prof), 'input': x, 'pass1': out},
                 argv=['uncrustify', '-c', 'profile.cfg', '-f', 'pass1'])
+    # hand-written hosts dense in the shapes the code-modifying options rewrite (braced cases, nested switches, if chains) x profiles
+    from .c04 import HOSTS as MOD_HOSTS
+    hsel = [(prof, 'host-' + hl, hl, MOD_HOSTS[hl]) for prof in PROFILES for hl in ('C', 'CPP')]
+    for prof, rel, verdict, detail, out in pmap(_pair, hsel):
+        ctx.evaluations += 1
+        ctx.count('host_' + verdict)
+        if verdict == 'ok':
+            ctx.nt(prof, rel)
+        elif verdict in ('unstable', 'second-pass-refused', 'check-fails'):
+            ctx.violation('%s-host|%s|%s' % (verdict, prof, rel), '%s: profile %s, %s: %s' % (verdict, prof, rel, detail),
+                          files={'profile.cfg': profile_text(prof), 'input': MOD_HOSTS[rel[5:]], 'pass1': out},
+                          argv=['uncrustify', '-c', 'profile.cfg', '-f', 'pass1'])
     weak = [t for t in corpus.tests() if t[3]]
     wsel = sr.sample(weak, 800) if quick else weak
     for tid, verdict, detail in pmap(_weak, wsel):
